@@ -2,6 +2,7 @@ package main
 
 import (
 	"fmt"
+	"github.com/cockroachdb/errors/errorspb"
 
 	"github.com/cockroachdb/errors"
 	"github.com/cockroachdb/errors/errbase"
@@ -33,6 +34,36 @@ func treeSX(e error) SX {
 func encSX(e error) SX {
 	enc := errors.EncodeError(bgCtx, e)
 	return encToSX(&enc)
+}
+
+// detBytesSX: the protobuf bytes, as the generated code of errorspb marshals them, of the string
+// fields of every visible layer's EncodedErrorDetails (full_details left out), in wire order.
+func detBytesSX(e error) SX {
+	enc := errors.EncodeError(bgCtx, e)
+	var out []SX
+	add := func(d errorspb.EncodedErrorDetails) {
+		d.FullDetails = nil
+		b, err := d.Marshal()
+		if err != nil {
+			out = append(out, Sym("marshal-error"))
+			return
+		}
+		out = append(out, Str(string(b)))
+	}
+	var walk func(x *errorspb.EncodedError)
+	walk = func(x *errorspb.EncodedError) {
+		if l := x.GetLeaf(); l != nil {
+			add(l.Details)
+			for i := range l.MultierrorCauses {
+				walk(l.MultierrorCauses[i])
+			}
+		} else if w := x.GetWrapper(); w != nil {
+			add(w.Details)
+			walk(&w.Cause)
+		}
+	}
+	walk(&enc)
+	return L(out...)
 }
 
 func isSX(e error, refs []error) SX {
@@ -77,7 +108,7 @@ var skipFmt bool
 
 func fmtField(name string, f func() SX) SX {
 	if skipFmt {
-		return L(Sym(name+"-skipped"))
+		return L(Sym(name + "-skipped"))
 	}
 	return L(Sym(name), f())
 }
@@ -162,6 +193,7 @@ func obsCase(e error, refs []error) SX {
 	return L(Sym("res"),
 		L(Sym("tree"), optSX(func() SX { return treeSX(e) })),
 		L(Sym("enc"), optSX(func() SX { return encSX(e) })),
+		L(Sym("detbytes"), optSX(func() SX { return detBytesSX(e) })),
 		L(Sym("h1tree"), onHop(h1, ok1, treeSX)),
 		L(Sym("h1enc"), onHop(h1, ok1, encSX)),
 		L(Sym("h2enc"), onHop(h2, ok2, encSX)),
